@@ -19,6 +19,9 @@ RULE = (
     "per-grain lattice two-folds. Strain cases: deformation gradients F = R.S "
     "(principal stretches in [1e-3,1e3], optionally det<0 excluded), raw invertible 3x3 "
     "matrices with condition number <=1e6, simple shears I + 2e e_i x e_j, and rotations Q. "
+    "Also infinitesimal strains R.V.diag(1+10^u d).V^T and I+-10^u e_i x e_j with u in [-10,-2] "
+    "(tolerances follow the measured conditioning: 1e-12 S0 for the stretch, 1e-13/separation "
+    "for the axis). "
     "Non-trivial: >=3 grains that are not all identical and Q >=5 degrees from every "
     "axis-aligned rotation (texture); non-symmetric F with separated principal stretches "
     "(strain); distinct = distinct canonical JSON."
@@ -152,7 +155,7 @@ F_spec = st.one_of(
         }
     ),
     st.fixed_dictionaries({"k": st.just("raw"), "a": st.lists(st.floats(-3, 3), min_size=9, max_size=9)}),
-    st.fixed_dictionaries({"k": st.just("shear"), "i": st.integers(0, 2), "j": st.integers(0, 2), "g": st.floats(-20, 20)}),
+    st.fixed_dictionaries({"k": st.just("shear"), "i": st.integers(0, 2), "j": st.integers(0, 2), "g": st.one_of(st.floats(-20, 20), st.integers(-20, 20).map(float))}),
     # infinitesimal strain: F = R.V.diag(1 + 10^u d).V^T and I + 10^u e_i (x) e_j
     st.fixed_dictionaries(
         {
@@ -189,6 +192,8 @@ def F_from(spec):
     F = np.eye(3)
     if spec["i"] != spec["j"]:
         F[spec["i"], spec["j"]] = spec["g"] if spec["k"] == "shear" else spec["sgn"] * 10.0 ** spec["u"]
+    if spec["k"] == "shear" and float(spec["g"]).is_integer():
+        F = F.astype(np.int64)  # a whole-number shear typed in as [[1, 3, 0], [0, 1, 0], [0, 0, 1]]
     return F
 
 
